@@ -200,6 +200,8 @@ func (w *World) ctxFor(pkgPath, file string) *ResCtx {
 
 func (w *World) resolveType(te *TypeExpr, ctx *ResCtx) *SType {
 	switch te.Kind {
+	case "resolved":
+		return &SType{Go: te.Go}
 	case "ptr":
 		return &SType{Go: types.NewPointer(w.resolveType(te.Elem, ctx).Go)}
 	case "slice":
